@@ -9,6 +9,7 @@
 import Sq.Machine
 import SqLemmas.DictRefine
 import SqLemmas.ListRefine
+import SqLemmas.SliceLemmas
 namespace SqProps.C14
 open Sq
 
@@ -238,5 +239,29 @@ example : (runImplL { heap := #[.list []], rng := 0, rx := [] } 0
     [.push (.int 1), .push (.int 2), .popAt (-2), .insert 5 (.int 3), .set 0 (.int 9), .popAt 7]).heap.get? 0 =
     some (.list [.int 9, .int 3]) := by rfl
 
+
+/-! ### [B] slices -/
+
+/-- **`xs[a:b]` is the contiguous segment between its bounds** (`pyGetItem` on a list with a slice key returns
+    `pick xs (sliceIndices …)`, Sq/Builtins.lean; `sliceIndices` transcribes `slice.indices`): a bound counts from the end when
+    negative and is clamped to `0 .. len`; the elements between the bounds come out in order, none when the bounds cross -/
+theorem slice_is_contiguous_segment (xs : List Val) (a b : Option Int) :
+    ∃ idx, sliceIndices xs.length a b none = .ok idx ∧
+      pick xs idx = (xs.drop (sliceBound xs.length a 0)).take (sliceBound xs.length b xs.length - sliceBound xs.length a 0) :=
+  slice_is_segment xs a b
+
+/-- a slice is never longer than its source, and `xs[:]` is all of `xs` -/
+theorem slice_no_longer_than_source (xs : List Val) (a b : Option Int) :
+    ∃ idx, sliceIndices xs.length a b none = .ok idx ∧ (pick xs idx).length ≤ xs.length ∧ (a = none → b = none → pick xs idx = xs) := by
+  obtain ⟨idx, h1, h2⟩ := slice_is_segment xs a b
+  refine ⟨idx, h1, ?_, ?_⟩
+  · rw [h2, List.length_take, List.length_drop]; omega
+  · intro ha hb; subst ha; subst hb
+    rw [h2]; simp [sliceBound]
+
+/-- `[10, 20, 30, 40][-3:3]` = `[20, 30]`; `[1:100]` clamps; crossing bounds give `[]` -/
+example : pick [10, 20, 30, 40] ((sliceIndices 4 (some (-3)) (some 3) none).toOption.getD []) = [20, 30] ∧
+    pick [10, 20, 30, 40] ((sliceIndices 4 (some 1) (some 100) none).toOption.getD []) = [20, 30, 40] ∧
+    pick [10, 20, 30, 40] ((sliceIndices 4 (some 3) (some 1) none).toOption.getD []) = [] := by decide +kernel
 
 end SqProps.C14
